@@ -600,7 +600,11 @@ func (c *Ctx) havocSliceContents(s *State, sv SliceV, elem types.Type) {
 	for _, l := range leaves(elem) {
 		key := memKey(elem) + l
 		m := c.heapGet(s, key, sA2)
-		c.heapSet(s, key, sA2, store(m, sv.Ref, c.fresh("hav", sA1)))
+		h := c.fresh("hav", sA1)
+		if key == "M.byte" || key == "M.uint8" {
+			c.byteArrs[h] = true
+		}
+		c.heapSet(s, key, sA2, store(m, sv.Ref, h))
 	}
 }
 
